@@ -88,6 +88,7 @@ type G struct {
 	assigned       map[string]bool
 	wildN, wildCur int
 	wildMacros   []string
+	an0          []float64 // initial elements of the context list an0
 }
 
 type macroInfo struct {
@@ -142,6 +143,10 @@ func StdCtx(g *G) ([]*m.CtxVar, []vinfo) {
 		a.A = append(a.A, m.Num(float64(g.intn("an0e", 0, 9))))
 	}
 	add("an0", TArrInt, a, "slice")
+	g.an0 = g.an0[:0]
+	for _, e := range a.A {
+		g.an0 = append(g.an0, e.N)
+	}
 	n = g.intn("as0len", 0, 4)
 	as := m.Val{K: m.KArr}
 	for i := 0; i < n; i++ {
@@ -178,6 +183,16 @@ func (g *G) varsOf(ty Ty) []string {
 		}
 	}
 	return out
+}
+
+// hasVar reports whether name is in scope as a list of integers.
+func (g *G) hasVar(name string) bool {
+	for _, v := range g.varsOf(TArrInt) {
+		if v == name {
+			return true
+		}
+	}
+	return false
 }
 
 func (g *G) callsOK() bool { return g.C.Calls && g.noCalls == 0 }
@@ -442,6 +457,27 @@ func (g *G) boolExpr(d int) *m.E {
 				hay = &m.E{K: "group", A: []*m.E{m.EBin("..", m.ENum(0), m.ENum(float64(g.intn("inhi", 0, 4))))}}
 			}
 			return m.EBin(pickS(g, "in", []string{"in", "not in"}), m.EStr(pickS(g, "inword", []string{"a", "zero", "x", "abc"})), hay)
+		}
+		if g.intn("inshared", 0, 4) == 0 && g.hasVar("an0") {
+			// a list looked for in a list that reaches one and the same list
+			// object more than once: [an0, an0], [[an0, 1], [an0, 2]]. The
+			// needle has an0's length and differs from it in at most one
+			// element, so every comparison of the needle with that object has
+			// to be made again for every element.
+			needle := m.EArr()
+			for _, v := range g.an0 {
+				needle.A = append(needle.A, m.ENum(v))
+			}
+			if len(needle.A) > 0 && g.flip("inshdiff") {
+				needle.A[g.intn("inshat", 0, len(needle.A)-1)] = m.ENum(float64(g.intn("inshv", 0, 9)))
+			}
+			hay := m.EArr(m.EName("an0"), m.EName("an0"))
+			if g.flip("inshnest") {
+				k := float64(g.intn("inshk", 1, 2))
+				hay = m.EArr(m.EArr(m.EName("an0"), m.ENum(1)), m.EArr(m.EName("an0"), m.ENum(2)))
+				needle = m.EArr(needle, m.ENum(k))
+			}
+			return m.EBin(pickS(g, "in", []string{"in", "not in"}), needle, hay)
 		}
 		return m.EBin(pickS(g, "in", []string{"in", "not in"}), g.Expr(TInt, d-1), g.Expr(TArrInt, d-1))
 	case 6:
